@@ -385,7 +385,14 @@ def part_a(ctx: Ctx, nseq: int, use_model: bool, seqs=None):
     for s in range(nseq):
         ops = seqs[s] if seqs else gen_storage_ops(rng, rng.choice([8, 15, 30, 60]))
         a = len(lines)
-        ok, nontrivial = run_storage_seq(ctx, ops, lines, impl)
+        try:
+            ok, nontrivial = run_storage_seq(ctx, ops, lines, impl)
+        except AssertionError:
+            raise
+        except Exception as e:  # the model never raises on these sequences
+            ctx.disagree(f"part A: implementation raised {type(e).__name__}: {e}", {"part": "A", "ops": ops})
+            del lines[a:], impl[a:]
+            continue
         spans.append((a, len(lines), ops))
         ctx.case(("A", repr(ops)), nontrivial)
         if s < 1:
@@ -807,7 +814,13 @@ def part_b(ctx: Ctx, nscen: int, use_model: bool, seqs=None):
         for s in range(nscen):
             ops = seqs[s] if seqs else gen_node_ops(rng, rng.choice([25, 40, 60]))
             r = NodeRun(ctx, ops)
-            await r.run()
+            try:
+                await r.run()
+            except AssertionError:
+                raise
+            except Exception as e:  # a direct call into the node raised: the model has no such behaviour
+                ctx.disagree(f"part B: implementation raised {type(e).__name__}: {e}", {"part": "B", "ops": ops})
+                continue
             runs.append(r)
             ctx.case(("B", repr(ops)), {"acc", "rej"} <= r.flags)
             if s < 1:
@@ -867,6 +880,14 @@ def check_lookup(ctx: Ctx, W: World, values, result, site, replay):
     return True
 
 
+def safe_check_lookup(ctx, W, values, result, site, replay):
+    try:
+        return check_lookup(ctx, W, values, [(d, pk) for d, pk in result], site, replay)
+    except (TypeError, ValueError, KeyError):
+        ctx.oracle_fail(site + ":shape", f"lookup result is not a list of (data, key-or-None) pairs: {result!r}"[:300], replay)
+        return False
+
+
 def gen_pp_specs(rng):
     n = rng.choice([0, 1, 2, 3, 4, 6, 8, 12])
     specs = [rand_blob_spec(rng, big=False) for _ in range(n)]
@@ -902,7 +923,7 @@ def part_c(ctx: Ctx, ncases: int, use_model: bool, seqs=None):
             try:
                 res = node.overlay.post_process_values(values)
                 got = "[" + ",".join(f"{W.datas(d)}:{'-' if pk is None else W.pks(pk)}" for d, pk in res) + "]"
-                ok = check_lookup(ctx, W, values, res, "DHTCommunity.post_process_values", replay)
+                ok = safe_check_lookup(ctx, W, values, res, "DHTCommunity.post_process_values", replay)
                 # plain values: reported once per occurrence, unsigned
                 plain = sorted(W.truth[b]["data"] for b in values if W.truth[b]["wire"][0] == "s")
                 if ok and sorted(d for d, pk in res if pk is None) != plain:
@@ -989,7 +1010,7 @@ def part_c_e2e(ctx: Ctx, ncases: int):
             if res is not None:
                 seen_vals = [b for b in held]
                 # only values the servers actually returned (max 8 each) can be reported; all held here are <= 6 per server
-                check_lookup(ctx, W, list(dict.fromkeys(seen_vals)), list(res), "DHTCommunity.find_values", replay)
+                safe_check_lookup(ctx, W, list(dict.fromkeys(seen_vals)), list(res), "DHTCommunity.find_values", replay)
                 ctx.count("C.e2e:results%d" % min(len(res), 6))
             # caching / own-storage side effects of the lookup: whatever a node stored on behalf of the lookup (not put
             # there by the harness) must be a valid entry
